@@ -1,4 +1,6 @@
 import Orca.Lemmas.IdemHist
+import Orca.Lemmas.LowerIdem
+import Orca.Lemmas.ApiPlan
 /-!
 # C05 — encoding again without edits gives the same bytes
 
@@ -10,7 +12,8 @@ crate from `corpus/`. What is proved is the part of the statement that holds: hi
 pending (injections of any kind, initialiser changes, global additions through `add_global`, exports, data) — for states
 (`c05_encode_idem_partial`) and for **every history** of such operations on a parsed module
 (`c05_encode_idem_after_quiet_history`; the invariants it needs are proved inductive in Lemmas/Preserve.lean and
-Lemmas/IdemHist.lean).
+Lemmas/IdemHist.lean). The other half of an encode that works in place — the lowering of special instrumentation — is proved
+idempotent without restriction (`c05_lowering_leaves_nothing_special`, `c05_second_lowering_changes_nothing`, Lemmas/LowerIdem.lean).
 -/
 namespace Orca.Edit
 open Orca.Reindex
@@ -49,3 +52,40 @@ example : let s : St := { f := { items := [⟨0, true, false, 1, 0⟩, ⟨1, fal
     (encode s).1.code = s.code ∧ (encode (encode s).1).2 matches Ret.encoded .. := by decide
 
 end Orca.Edit
+
+namespace Orca.Lower
+
+/-- **The lowering resolves in place, completely.** After `resolve_special_instrumentation` no instruction of the function carries a
+    semantic-after, block-entry, block-exit or block-alternate list and the function-level lists are empty — for every body (no nesting
+    assumption) and every plan; block alternates on block-structured instructions only, which is all the API accepts. Proved by showing
+    that one iteration of the resolver's loop changes the body at the current index only and, on whichever path (removal, block
+    alternate, the three stages of `planSpecial`), leaves that instruction without special lists. -/
+theorem c05_lowering_leaves_nothing_special (f : Func) (hsp : f.hasSpecial = true) (hsc : ∀ x ∈ f.body, AltScope x) :
+    (∀ y ∈ (resolveSpecial f).body, Cleared y) ∧ (resolveSpecial f).entry = [] ∧ (resolveSpecial f).exit = []
+    ∧ (resolveSpecial f).body.length = f.body.length :=
+  resolveSpecial_clears f hsp hsc
+
+/-- **…hence encoding again lowers nothing again**: the function the first encode leaves behind is encoded to the same code, with no
+    further local — every body, every plan. -/
+theorem c05_second_lowering_changes_nothing (f : Func) (hsp : f.hasSpecial = true) (hsc : ∀ x ∈ f.body, AltScope x) :
+    lower (resolveSpecial f) = lower f :=
+  lower_resolved_again f hsp hsc
+
+/-- …in particular for every function the injection API can build -/
+theorem c05_second_lowering_changes_nothing_api (f0 f : Func) (ops : List ApiOp) (h0 : ∀ x ∈ f0.body, Pristine x)
+    (hops : ∀ op ∈ ops, op.noAlt = true) (ha : applyAll f0 ops = some f) (hsp : f.hasSpecial = true) :
+    lower (resolveSpecial f) = lower f :=
+  lower_resolved_again f hsp (fun x hx => (applyAll_inScope ops f0 f hops (fun y hy => (h0 y hy).inScope) ha x hx).1.altOnly)
+
+/-! non-vacuity (decided): function exit code, a block with an exit probe, a flagged `br_if`; the second lowering of the resolved
+    function gives the same 17 tokens and the same count of added locals, and the resolved function carries no special list -/
+private def mkI05 (t : Tok) (k : Kind) : Instr := { tok := t, kind := k }
+set_option maxRecDepth 20000 in
+example :
+    let f : Func := { body := [{ mkI05 "block" .block with blockExit := ["X"] }, { mkI05 "br_if 0" (.brIf 0) with semAfter := ["S"] },
+                              mkI05 "end" .end_, mkI05 "end" .end_], hasSpecial := true, exit := ["EX"], nlocals := 2 }
+    lower (resolveSpecial f) = lower f ∧ (lower f).2 = 1 ∧ (lower f).1.length = 17
+    ∧ (resolveSpecial f).body.all (fun i => i.semAfter.isEmpty && i.blockExit.isEmpty) = true := by
+  decide
+
+end Orca.Lower
